@@ -596,6 +596,39 @@ func checkGlobals(c *Ctx, r *Report) {
 		}
 	}
 	r.Floor("G1", locked, 2)
+	// package-level variables of kinds that carry mutable state across
+	// packagings (pools, synchronised maps, buffers, channels)
+	var gnames []string
+	globalsByName := map[string]*ssa.Global{}
+	for _, sp := range c.SSAPkgs {
+		if strings.HasPrefix(sp.Pkg.Path(), modPath+"/internal/cmd") || sp.Pkg.Path() == modPath+"/cmd/nfpm" {
+			continue
+		}
+		for _, m := range sp.Members {
+			if g, ok := m.(*ssa.Global); ok {
+				gnames = append(gnames, globalName(g))
+				globalsByName[globalName(g)] = g
+			}
+		}
+	}
+	sort.Strings(gnames)
+	for _, gn := range gnames {
+		g := globalsByName[gn]
+		ts := types.TypeString(derefType(g.Type()), nil)
+		bad := ""
+		// (pools and synchronised maps are safe containers; their misuse is
+		// decided by G4 and by the rules of the properties they would break)
+		switch {
+		case ts == "bytes.Buffer" || ts == "*bytes.Buffer" || ts == "strings.Builder" || ts == "*strings.Builder":
+			bad = ts
+		case strings.HasPrefix(ts, "chan ") || strings.HasPrefix(ts, "<-chan") || strings.HasPrefix(ts, "chan<-"):
+			bad = ts
+		}
+		if bad != "" {
+			r.Fail("G1-kind", "package-level "+gn+" ("+bad+")", c.pos(g.Pos()), "a package-level "+bad+" keeps state from one packaging to the next and is shared by concurrent packagings: results can depend on what was built before or at the same time")
+		}
+	}
+	r.Pass("G1-kind", fmt.Sprintf("%d package-level variables outside the CLI", len(gnames)), "-", "none is an unsynchronised buffer/builder or a channel")
 	// append(global, ...) may write into the global's backing array
 	for _, fn := range c.ModFuncs {
 		forEachInstr(fn, func(in ssa.Instruction) {
